@@ -281,60 +281,53 @@ impl<'a> Searcher<'a> {
         // ======== Process each root specified in the query =========
         for root in &self.query.roots {
             if root.options.regexp {
-                let mut ext_roots: Vec<String> = vec![];
-                // Split the path into parts to process each segment as a regex
-                let parts = root.path.split('/').collect::<Vec<&str>>();
-                for part in parts {
+                // The places reached so far, segment by segment: the working directory ("") or the
+                // file system root to begin with. No match for a segment leaves no place at all
+                // (and is not a reason to search the working directory instead).
+                let join = |base: &str, name: &str| match base {
+                    "" => name.to_string(),
+                    "/" => format!("/{}", name),
+                    _ => format!("{}/{}", base, name),
+                };
+                let mut ext_roots: Vec<String> = vec![String::from(match root.path.starts_with('/') {
+                    true => "/",
+                    false => "",
+                })];
+                for part in root.path.split('/').filter(|part| !part.is_empty()) {
                     if looks_like_regexp(part) {
-                        // Create a regex from the part
-                        let rx_string = format!("^{}$", part);
+                        // the whole name has to match, whatever alternatives the expression holds
+                        let rx_string = format!("^(?:{})$", part);
                         let rx = match Regex::new(&rx_string) {
                             Ok(rx) => rx,
                             _ => error_exit("Incorrect regex expression", part),
                         };
                         let mut tmp = vec![];
 
-                        if ext_roots.is_empty() {
-                            let part = part.to_string();
-                            if part.starts_with("/") {
-                                ext_roots.push(String::from("/"));
-                            } else {
-                                ext_roots.push(String::from(""));
-                            }
-                        }
-
                         // Read the directory and filter entries matching the regex
-                        for root in &ext_roots {
-                            let mut start_from_rx_dir = false;
-
-                            let mut path = Path::new(&root);
-
-                            if path == Path::new("") {
-                                path = current_dir.as_path();
-                                start_from_rx_dir = true;
-                            }
+                        for base in &ext_roots {
+                            let path = match base.as_str() {
+                                "" => current_dir.as_path(),
+                                base => Path::new(base),
+                            };
 
                             match path.read_dir() {
                                 Ok(read_result) => {
                                     for entry in read_result.flatten() {
                                         if let Ok(file_type) = entry.file_type() {
-                                            if file_type.is_dir()
+                                            // (a link to a directory is a place to search if links are followed)
+                                            let is_dir = file_type.is_dir()
+                                                || (root.options.symlinks
+                                                    && file_type.is_symlink()
+                                                    && fs::metadata(entry.path()).is_ok_and(|m| m.is_dir()));
+                                            if is_dir
                                                 && rx.is_match(
                                                     entry.file_name().to_string_lossy().as_ref(),
                                                 )
                                             {
-                                                if start_from_rx_dir {
-                                                    tmp.push(
-                                                        entry
-                                                            .file_name()
-                                                            .to_string_lossy()
-                                                            .to_string(),
-                                                    );
-                                                } else {
-                                                    tmp.push(
-                                                        entry.path().to_string_lossy().to_string(),
-                                                    );
-                                                }
+                                                tmp.push(join(
+                                                    base,
+                                                    entry.file_name().to_string_lossy().as_ref(),
+                                                ));
                                             }
                                         }
                                     }
@@ -346,20 +339,14 @@ impl<'a> Searcher<'a> {
                             }
                         }
 
-                        ext_roots.clear();
-                        ext_roots.append(&mut tmp);
-                    } else if ext_roots.is_empty() {
-                        ext_roots.push(part.to_string());
+                        ext_roots = tmp;
                     } else {
-                        //update all roots
-                        let mut new_roots = ext_roots
-                            .iter()
-                            .map(|root| root.to_string() + "/" + part)
-                            .collect::<Vec<String>>();
-                        ext_roots.clear();
-                        ext_roots.append(&mut new_roots);
+                        ext_roots = ext_roots.iter().map(|base| join(base, part)).collect();
                     }
                 }
+
+                // (a path that is nothing but slashes or nothing at all)
+                ext_roots.retain(|ext_root| !ext_root.is_empty());
 
                 ext_roots.iter().for_each(|ext_root| {
                     roots.push(Root::clone_with_path(ext_root.to_string(), root.clone()))
